@@ -431,7 +431,8 @@ def _kind_val(dtype, one):
 
 @model(np.zeros)
 def _zeros(interp, shape, dtype=float, **kw):
-    if _all_concrete(shape):
+    sym_arrays = getattr(getattr(interp.cur_frame, "unit", None), "symbolic_arrays", False)
+    if _all_concrete(shape) and not (sym_arrays and isinstance(shape, int)):
         return np.zeros(shape, dtype=dtype, **kw)
     k, v = _kind_val(dtype, 0)
     return _full(interp, shape, v, k)
@@ -649,3 +650,33 @@ def _atleast_2d(interp, x):
     if isinstance(x, SArr) and len(getattr(x, "item_shape", ())) >= 1:
         return x
     raise eng.Unsupported("np.atleast_2d of a 1-D symbolic array")
+
+
+np_all = z3.Function("np_all", Elem, z3.BoolSort())
+np_any = z3.Function("np_any", Elem, z3.BoolSort())
+
+
+@model(np.all)
+def _np_all(interp, x, *a, **k):
+    eng = _eng()
+    if _all_concrete(x):
+        return np.all(x, *a, **k)
+    if isinstance(x, SOpaque):
+        axiom("N-ALL/ANY on one event payload: uninterpreted predicate of the payload")
+        return wrap(np_all(x.e))
+    if isinstance(x, SArr) and x.kind == "bool":
+        return wrap(forall_idx(x.n, lambda kk: x.sel(kk)))
+    raise eng.Unsupported("np.all of " + type(x).__name__)
+
+
+@model(np.any)
+def _np_any(interp, x, *a, **k):
+    eng = _eng()
+    if _all_concrete(x):
+        return np.any(x, *a, **k)
+    if isinstance(x, SOpaque):
+        axiom("N-ALL/ANY on one event payload: uninterpreted predicate of the payload")
+        return wrap(np_any(x.e))
+    if isinstance(x, SArr) and x.kind == "bool":
+        return wrap(exists_idx(x.n, lambda kk: x.sel(kk)))
+    raise eng.Unsupported("np.any of " + type(x).__name__)
